@@ -165,6 +165,22 @@ def r_replace_form(ck: Checker) -> None:
     calls = [c for c in walk_body(fn.body) if isinstance(c, ast.Call) and _is_dc_replace(c, aliases)]
     what = "ASTNode.replace constructs the new node through dataclasses.replace(self, **kwargs) and returns it"
     kwname = fn.args.kwarg.arg if fn.args.kwarg else None
+    if kwname is not None:
+        # the changes reach dataclasses.replace as they were given: the mapping is not rebuilt or edited on the way
+        rebinds = [st for st in walk_body(fn.body) if isinstance(st, (ast.Assign, ast.AugAssign, ast.AnnAssign))
+                   and any(isinstance(t, ast.Name) and t.id == kwname for t in (st.targets if isinstance(st, ast.Assign) else [st.target]))]
+        edits = [n for n in walk_body(fn.body) if (isinstance(n, ast.Subscript) and isinstance(n.ctx, (ast.Store, ast.Del)) and norm(n.value) == kwname)
+                 or (isinstance(n, ast.Call) and isinstance(n.func, ast.Attribute) and norm(n.func.value) == kwname and n.func.attr in ("update", "pop", "setdefault", "clear", "popitem"))]
+        what_k = "ASTNode.replace hands the given values to dataclasses.replace unchanged"
+        if rebinds or edits:
+            conv = [st for st in rebinds if isinstance(getattr(st, "value", None), ast.DictComp)
+                    and any(isinstance(c, ast.Call) and dotted(c.func) in ("tuple", "list", "set", "frozenset", "str", "dict") for c in ast.walk(st.value.value))]
+            if conv:
+                ck.violation("R-REPLACE-FORM", f, conv[0], what_k, construct=f"replace: the given values are converted before they are stored ({norm(conv[0].value.value)[:60]})")
+            else:
+                raise Unsupported(f"replace: {kwname} is rebuilt or edited before it reaches dataclasses.replace", (rebinds + edits)[0])
+        else:
+            ck.holds("R-REPLACE-FORM", f, fn, what_k)
     ok = len(calls) == 1 and [norm(a) for a in calls[0].args] == ["self"] and [(k.arg, norm(k.value)) for k in calls[0].keywords] == [(None, kwname)]
     rets = [s for s in walk_body(fn.body) if isinstance(s, ast.Return)]
     if ok:
@@ -198,6 +214,8 @@ def run(ck: Checker) -> None:
     ck.rule_text = "one obligation per decision leaf / call site / exit kind"
     ck.assumptions += ["dataclasses.replace calls __init__ with the current values of the init fields"]
     ck.guard("R-DUP-SANITIZE", lambda: r_dup_sanitize(ck))
+    from .c03 import r_reg_fresh
+    ck.guard("R-REG-FRESH", lambda: r_reg_fresh(ck))  # a copy is registered under an id no registered node holds
     ck.guard("R-REPLACE-FORM", lambda: r_replace_form(ck))
     # a replacement takes the id a fresh construction would take now: the unique-id helper looks at the registry only
     from .c03 import r_unique_id_state
